@@ -521,7 +521,7 @@ func c18RunOne(t *testing.T, c c18Case) c18Outcome {
 		srv := &Server{Handler: x, Logger: c18Logger(m.SLog)}
 		var swg sync.WaitGroup
 		var connMu sync.Mutex
-		var sconns []*quic.Conn
+		var sconns, cconns []*quic.Conn
 		serveDone := make(chan struct{})
 		if c.Real {
 			go func() {
@@ -559,7 +559,14 @@ func c18RunOne(t *testing.T, c c18Case) c18Outcome {
 			DisableCompression: m.Gzip == 0,
 			Logger:             c18Logger(m.CLog),
 			Dial: func(ctx context.Context, addr string, tlsCfg *tls.Config, cfg *quic.Config) (*quic.Conn, error) {
-				return d.Dial(ctx, w.ServerAddr, tlsCfg, cfg)
+				conn, err := d.Dial(ctx, w.ServerAddr, tlsCfg, cfg)
+				if conn != nil {
+					// the Transport forgets (without closing) a connection on which a request failed
+					connMu.Lock()
+					cconns = append(cconns, conn)
+					connMu.Unlock()
+				}
+				return conn, err
 			},
 		}
 		client := &http.Client{Transport: tr}
@@ -597,6 +604,11 @@ func c18RunOne(t *testing.T, c c18Case) c18Outcome {
 
 		// ---- teardown
 		tr.Close()
+		connMu.Lock()
+		for _, cc := range cconns {
+			cc.CloseWithError(0, "")
+		}
+		connMu.Unlock()
 		d.Close()
 		cancelAll()
 		if c.Real {
